@@ -190,6 +190,30 @@ pub const DBL_FORMS: &[(&str, UnF)] = &[
 #[cfg(not(feature = "ark"))]
 pub const DBL_FORMS: &[(&str, UnF)] = &[("E.double()", |a| a.double())];
 
+/// operators applied to ONE object on both sides (the same reference twice): op, form, f
+#[cfg(feature = "ark")]
+pub const ALIAS_FORMS: &[(&str, &str, UnF)] = &[
+    ("add", "&E+&E (same object)", |a| &a + &a),
+    ("sub", "&E-&E (same object)", |a| &a - &a),
+    ("add", "&A+&A (same object)", |a| {
+        let x = aff(a);
+        el(&x + &x)
+    }),
+    ("sub", "&A-&A (same object)", |a| {
+        let x = aff(a);
+        el(&x - &x)
+    }),
+    ("add", "E+&E (rhs borrows the moved value's copy)", |a| a + &a),
+    ("sub", "E-&E (rhs borrows the moved value's copy)", |a| a - &a),
+];
+#[cfg(not(feature = "ark"))]
+pub const ALIAS_FORMS: &[(&str, &str, UnF)] = &[
+    ("add", "&E+&E (same object)", |a| &a + &a),
+    ("sub", "&E-&E (same object)", |a| &a - &a),
+    ("add", "E+&E (rhs borrows the moved value's copy)", |a| a + &a),
+    ("sub", "E-&E (rhs borrows the moved value's copy)", |a| a - &a),
+];
+
 #[cfg(feature = "ark")]
 pub const SUM_FORMS: &[(&str, fn(&[Element]) -> Element)] = &[
     ("Sum<E>", |v| v.iter().copied().sum()),
@@ -663,6 +687,46 @@ pub fn bigint_alphabet() -> Vec<Vec<u8>> {
         y.extend_from_slice(&r);
         v.push(y);
     }
+    // integers on which a double-and-add ladder meets equal / opposite / identity operands.  MSB-first: a prefix p
+    // with 2p = +-1 or 0 (mod r) followed by a set bit, i.e. k = (r + 2) 2^j + low, r 2^j + low, (2r + 1) 2^j + low.
+    // LSB-first: k mod 2^i = 2^i, -2^i or 0 (mod r) with bit i set (possible from i = 250 on), e.g. 2^i + (2^i mod r).
+    for j in [0usize, 1, 64, 70] {
+        for base in [le_add_small(&r, 2), le_add_small(&le_add(&r, &r), 1), le_add_small(&le_add(&le_add(&r, &r), &r), 2), r.clone()] {
+            let mut x = vec![0u8; j / 8];
+            let mut b = base.clone();
+            // shift left by j % 8 bits
+            let sh = j % 8;
+            if sh > 0 {
+                let mut carry = 0u16;
+                for y in b.iter_mut() {
+                    let t = ((*y as u16) << sh) | carry;
+                    *y = (t & 0xff) as u8;
+                    carry = t >> 8;
+                }
+                b.push(carry as u8);
+            }
+            x.extend_from_slice(&b);
+            if j > 0 {
+                x[0] |= 1; // some low bits
+            }
+            v.push(x);
+        }
+    }
+    for i in 250..=258usize {
+        // 2^i mod r by repeated doubling in the scalar field
+        let mut t = Fr::from(1u64);
+        for _ in 0..i {
+            t = t + t;
+        }
+        let p2 = le_pow2(i, 40);
+        let tm = t.to_bytes_le().to_vec();
+        let mut x = le_add(&p2, &tm);           // 2^i + (2^i mod r)
+        x.truncate(40);
+        v.push(x);
+        let mut y = le_add(&p2, &(-t).to_bytes_le().to_vec()); // 2^i + (-2^i mod r)
+        y.truncate(40);
+        v.push(y);
+    }
     v.push(vec![0xff; 64]);
     v.push(vec![0xff; 72]);
     v.push(vec![0xff; 136]);
@@ -788,6 +852,13 @@ impl<'a> Machine<'a> {
         let x = self.regs[a];
         let r = guarded(|| f(x));
         self.put(json!({"k":"neg","form":form,"a":a}), dst, r);
+    }
+    /// a binary operator with the SAME object as both operands (logged as a `bin` event with b = a)
+    pub fn alias(&mut self, idx: usize, a: usize, dst: usize) {
+        let (op, form, f) = ALIAS_FORMS[idx % ALIAS_FORMS.len()];
+        let x = self.regs[a];
+        let r = guarded(|| f(x));
+        self.put(json!({"k":"bin","op":op,"form":form,"a":a,"b":a}), dst, r);
     }
     pub fn dbl(&mut self, idx: usize, a: usize, dst: usize) {
         let (form, f) = DBL_FORMS[idx % DBL_FORMS.len()];
@@ -1164,6 +1235,17 @@ pub fn record(suite: &str, n: usize, seed: u64, arg: &str, out: &mut dyn Write) 
             }
             load_alphabet(&mut m, &mut r);
             for a in 0..NREG {
+                for f in 0..ALIAS_FORMS.len() {
+                    let save = m.regs;
+                    m.alias(f, a, (a + 1) % NREG);
+                    m.enc(0, (a + 1) % NREG);
+                    m.regs = save;
+                    let e = m.regs[(a + 1) % NREG];
+                    emit(m.out, json!({"k":"restore","dst":(a+1)%NREG,"rep":rep(&e),"force":true}));
+                }
+            }
+            load_alphabet(&mut m, &mut r);
+            for a in 0..NREG {
                 for f in 0..NEG_FORMS.len() {
                     let save = m.regs;
                     m.neg(f, a, (a + 1) % NREG);
@@ -1239,6 +1321,75 @@ pub fn record(suite: &str, n: usize, seed: u64, arg: &str, out: &mut dyn Write) 
                     #[cfg(feature = "ark")]
                     for f in 10..APROD_FORMS.len() {
                         m.aobs(f, a, a);
+                    }
+                }
+            }
+        }
+        // representatives whose internal coordinates carry WORD PATTERNS (set through the rescaling hook): a predicate
+        // that folds the limbs of a coordinate (xor / or / add, all limbs or some) is wrong only on such values.  The
+        // pattern is installed as the canonical value of X or of Y, and as its Montgomery form (value = pattern / R).
+        "coordpat" => {
+            let mut m = Machine::new(out);
+            let l: u64 = 0x0123_4567_89ab_cdef;
+            let (a, b2) = (0x0fed_cba9_8765_4321u64, 0x0011_2233_4455_6677u64);
+            let limbs_to_fq = |w: [u64; 4]| -> Fq {
+                let mut bytes = Vec::new();
+                for x in w {
+                    bytes.extend_from_slice(&x.to_le_bytes());
+                }
+                fq_from(&bytes)
+            };
+            let pats: Vec<Fq> = vec![
+                limbs_to_fq([l, l, l, l]),
+                limbs_to_fq([a, b2, a, b2]),
+                limbs_to_fq([a, a, b2, b2]),
+                limbs_to_fq([a, b2, b2, a]),
+                limbs_to_fq([a, 0, 0, a]),
+                limbs_to_fq([0, 0, 0, 1]),
+                limbs_to_fq([0, 0, 1, 0]),
+                limbs_to_fq([0, 0, a, b2]),
+                limbs_to_fq([a, b2, 0, 0]),
+                limbs_to_fq([0x89ab_cdef_89ab_cdef, 0x89ab_cdef_89ab_cdef, 0x89ab_cdef_89ab_cdef, 0x0123_4567_0123_4567]),
+                limbs_to_fq([u64::MAX, u64::MAX, 0, 0]),
+                limbs_to_fq([u64::MAX, 0, u64::MAX, 0]),
+            ];
+            let mut r256 = vec![0u8; 33];
+            r256[32] = 1;
+            let rinv = fq_from(&r256).inverse().unwrap_or(Fq::ONE);
+            for it in 0..n.max(1) {
+                load_alphabet(&mut m, &mut r);
+                let mut cnt = 0usize;
+                for src in [2usize, 7, 11, 9] {
+                    for (pi, pat) in pats.iter().enumerate() {
+                        for mont in [false, true] {
+                            for coord in 0..2usize {
+                                cnt += 1;
+                                if (cnt + it) % 2 == 1 && it > 0 {
+                                    continue;
+                                }
+                                if cnt % 24 == 23 {
+                                    load_alphabet(&mut m, &mut r);
+                                }
+                                let c = m.regs[src].verif_raw();
+                                let target = if mont { *pat * rinv } else { *pat };
+                                let lam = match c[coord].inverse() {
+                                    Some(ci) => target * ci,
+                                    None => continue,
+                                };
+                                m.rescale(&lam, src, 13);
+                                for f in 0..ID_FORMS.len() {
+                                    m.isid(f, 13);
+                                }
+                                for f in 0..EQ_FORMS.len() {
+                                    m.eq(f, 13, 0);
+                                    m.eq(f, 0, 13);
+                                    m.eq(f, 13, src);
+                                    m.eq(f, 13, (src + 1) % NREG);
+                                }
+                                m.enc(pi % ENC_FORMS.len(), 13);
+                                m.hash(0, 13);
+                            }
+                        }
                     }
                 }
             }
@@ -2174,6 +2325,54 @@ fn ctor_suite(m: &mut Machine, r: &mut ChaCha20Rng, n: usize) {
             let e = el(*a);
             m.regs[i] = e;
             emit(m.out, json!({"k":"conv","name":"normalize_batch[all]","a":i,"dst":i,"rep":rep(&e)}));
+        }
+    }
+    // batches whose members' internal Z coordinates are RELATED (product 1, sum 0, equal, one the inverse of the other,
+    // -1, ...), built with the rescaling hook; every output must be a valid representative of its input
+    {
+        let lam = rand_fq(r) + Fq::from(3u64);
+        let li = lam.inverse().unwrap_or(Fq::ONE);
+        let scal = |m: &Machine, i: usize, l: Fq| -> Element {
+            let c = m.regs[i].verif_raw();
+            let zi = c[2].inverse().unwrap_or(Fq::ONE);
+            // first normalise to Z = 1, then scale by l: the member's Z is exactly l
+            let k = zi * l;
+            Element::verif_from_raw([c[0] * k, c[1] * k, c[2] * k, c[3] * k])
+        };
+        load_alphabet(m, r);
+        let batches: Vec<(&str, Vec<(usize, Fq)>)> = vec![
+            ("Z product 1", vec![(2, lam), (7, li)]),
+            ("Z product 1 (three)", vec![(2, lam), (7, lam), (11, li * li)]),
+            ("Z sum 0", vec![(2, lam), (7, -lam)]),
+            ("Z equal", vec![(2, lam), (7, lam), (9, lam)]),
+            ("Z = -1 and 1", vec![(2, -Fq::ONE), (7, Fq::ONE)]),
+            ("Z product -1", vec![(2, lam), (7, -li)]),
+            ("Z product 1 with both identity representatives", vec![(0, lam), (1, li), (7, Fq::ONE)]),
+            ("Z product 1, one member twice", vec![(2, lam), (2, li)]),
+        ];
+        for (name, members) in batches.iter() {
+            for which in 0..2 {
+                // (built from the registers as they are NOW: the alphabet is reloaded after every batch)
+                let elems: Vec<Element> = members.iter().map(|(i, l)| scal(m, *i, *l)).collect();
+                let res = guarded(|| {
+                    if which == 0 {
+                        Element::normalize_batch(&elems)
+                    } else {
+                        use ark_ec::ScalarMul;
+                        Element::batch_convert_to_mul_base(&elems)
+                    }
+                });
+                if let Ok(v) = res {
+                    for (j, a) in v.iter().enumerate() {
+                        let e = el(*a);
+                        let src = members[j].0;
+                        emit(m.out, json!({"k":"conv","name":format!("{}[{}]", if which == 0 { "normalize_batch" } else { "batch_convert_to_mul_base" }, name),
+                            "a":src,"dst":13,"rep":rep(&e)}));
+                        m.regs[13] = e;
+                    }
+                }
+                load_alphabet(m, r);
+            }
         }
     }
     load_alphabet(m, r);
